@@ -1,6 +1,7 @@
 ---------------------------- MODULE MC_Detector ----------------------------
 EXTENDS Detector
-R(id, fam, reg, proto, port) == [id |-> id, fam |-> fam, registrant |-> reg, proto |-> proto, port |-> port]
+R(id, fam, reg, proto, port) == [id |-> id, fam |-> fam, phantom |-> id, registrant |-> reg,
+                               client |-> IF reg = "absent" THEN "::" ELSE IF reg = "v6" THEN "c6" ELSE "c4", proto |-> proto, port |-> port]
 \* admitted registration shapes: an IPv4 phantom always comes with an IPv4 registrant (admission rule, C07)
 MCRegs == {R("a", "v4", "v4", "tcp", 443), R("b", "v4", "v4mapped", "udp", 443),
            R("c", "v6", "absent", "tcp", 443), R("d", "v6", "v6", "tcp", 8443), R("e", "v6", "v4", "udp", 443)}
